@@ -335,6 +335,82 @@ def lazy_slots_fn(k, strand, pre_ops, op):
     return fn
 
 
+# ------------------------------------------------------------------ H3: class-level codon registry (state shared by ALL objects in the process)
+def codon_text_history():
+    """a CDS whose middle codon is a text the codon class refuses (gap, foreign letter) or accepts (IUPAC): every question that goes through the codon class
+    gets the same answer - the same value or the same refusal - every time it is asked, on this object and on a twin built afterwards. Every path uses a
+    DIFFERENT middle codon, so what an earlier path left in the class-level registry cannot help."""
+    CH = "ACGTNRY-X*acgn?"
+
+    def fn(i, j, k):
+        i, j, k = concretize(i, j, k)
+        with untraced():
+            mid = CH[i] + CH[j] + CH[k]
+            text = "ATG" + mid + "GGATAA"
+
+            def mk():
+                par = Parent(sequence=Sequence(text, Alphabet.NT_EXTENDED_GAPPED, type=SequenceType.CHROMOSOME, id="chrG", validate_alphabet=False),
+                             location=SingleInterval(0, len(text), PLUS))
+                return CDSInterval([0], [len(text)], PLUS, [CDSFrame.ZERO], parent_or_seq_chunk_parent=par)
+
+            ops = [lambda o: str(o.translate(strict=False)), lambda o: str(o.translate()), lambda o: [str(c) for c in o.scan_codons()],
+                   lambda o: o.has_in_frame_stop, lambda o: o.has_valid_stop]
+            a = mk()
+            rounds = [[call(f, a) for f in ops] for _ in range(3)]
+            b = mk()
+            rounds.append([call(f, b) for f in reversed(ops)][::-1])
+            return all(r == rounds[0] for r in rounds)
+
+    return fn
+
+
+# ------------------------------------------------------------------ H4: objects adopted by a collection built on another parent (in-place re-parenting)
+def adoption_history():
+    """a gene / feature collection built WITHOUT parent (or on its own parent) and then handed to an AnnotationCollection that has one: whatever was asked of it
+    before the adoption, every answer afterwards - of the member and of the owning collection - equals that of a twin of which nothing was asked"""
+    PRE = [None, lambda o: o.strand, lambda o: o.chromosome_location, lambda o: o.to_dict(), lambda o: o.chunk_relative_location, lambda o: o.guid,
+           lambda o: [c.chromosome_location for c in o.iter_children()], lambda o: [list(c.blocks) for c in o.iter_children()],
+           lambda o: [c.has_sequence for c in o.iter_children()], lambda o: [c.get_spliced_sequence() for c in o.iter_children()]]
+    POST = [lambda m, c: m.chromosome_location, lambda m, c: m.chromosome_location.parent_id, lambda m, c: m.strand, lambda m, c: m.to_dict(),
+            lambda m, c: [x.chromosome_location for x in m.iter_children()], lambda m, c: [x.chromosome_location.parent_id for x in m.iter_children()],
+            lambda m, c: [list(x.blocks) for x in m.iter_children()], lambda m, c: [x.to_dict() for x in c.query_by_position(0, 40).iter_children()],
+            lambda m, c: [x.to_dict() for x in c.query_by_position(3, 35, completely_within=False).iter_children()], lambda m, c: c.to_dict(),
+            lambda m, c: [x.has_sequence for x in m.iter_children()], lambda m, c: [x.get_spliced_sequence() for x in m.iter_children()],
+            lambda m, c: [x.get_reference_sequence() for x in m.iter_children()], lambda m, c: [x.get_genomic_sequence() for x in m.iter_children()]]
+
+    def fn(kind, own, owner, pre):
+        kind, own, owner, pre = concretize(kind, own, owner, pre)
+        with untraced():
+            pars = [None, "chrom", "chunk", "bare"]
+
+            def par(k):
+                return Parent(id="chr1", sequence_type=SequenceType.CHROMOSOME) if k == "bare" else _par(k)
+
+            def mk_member():
+                if kind == 0:
+                    t1 = TranscriptInterval([2, 16], [14, 36], MINUS, [4, 16], [14, 30], [CDSFrame.ZERO, CDSFrame.TWO], transcript_id="tx", sequence_name="chr1",
+                                            parent_or_seq_chunk_parent=par(pars[own]))
+                    return GeneInterval([t1], gene_id="gid", sequence_name="chr1", parent_or_seq_chunk_parent=par(pars[own]))
+                f1 = FeatureInterval([3, 12], [9, 20], PLUS, feature_name="fn", sequence_name="chr1", parent_or_seq_chunk_parent=par(pars[own]))
+                return FeatureIntervalCollection([f1], feature_collection_name="fc", sequence_name="chr1", parent_or_seq_chunk_parent=par(pars[own]))
+
+            def run(pre_op):
+                Parent.cache_clear()
+                m = mk_member()
+                if pre_op is not None:
+                    call(pre_op, m)
+                try:
+                    coll = AnnotationCollection(genes=[m] if kind == 0 else None, feature_collections=[m] if kind == 1 else None, sequence_name="chr1",
+                                                parent_or_seq_chunk_parent=par(pars[owner]))
+                except Exception as e:  # noqa
+                    return ("refused", type(e).__name__)
+                return [call(lambda _: f(m, coll), None) for f in POST]
+
+            return run(PRE[pre]) == run(None)
+
+    return fn
+
+
 def obligations(tier):
     out = []
     quick = tier == "quick"
@@ -358,6 +434,21 @@ def obligations(tier):
                                    budget=900, cost=m * m * 0.25,
                                    desc="%s on a %s parent: every schedule of 3 operations starting with %s" % (kind, par_kind, names[first]),
                                    bounds="%d x %d schedules" % (m, m), examples=[dict(o0=first, o1=0, o2=1)]))
+    n_ch = 15
+    out.append(Obl("codon_text_history", codon_text_history(), dict(i=int, j=int, k=int),
+                   lambda i, j, k: 0 <= i and i < n_ch and 0 <= j and j < n_ch and 0 <= k and k < n_ch and (not quick or (i + j + k) % 3 == 0), budget=900, cost=60,
+                   desc="CDS with a middle codon over a 15-character alphabet (IUPAC letters, gap, foreign letters, lower case): translate (strict / non-strict), "
+                        "scan_codons and the stop predicates give the same value or the same refusal three times in a row and on a twin built afterwards "
+                        "(class-level codon registry)", bounds="15^3 middle codons%s (closed by the solver), each used on one path only" % (" (a third in the quick tier)" if quick else ""),
+                   examples=[dict(i=0, j=7, k=2), dict(i=8, j=0, k=1), dict(i=0, j=1, k=2)]))
+    out.append(Obl("adoption_history", adoption_history(), dict(kind=int, own=int, owner=int, pre=int),
+                   lambda kind, own, owner, pre: 0 <= kind and kind <= 1 and 0 <= own and own <= 3 and 0 <= owner and owner <= 3 and 1 <= pre and pre <= 9,
+                   budget=900, cost=60,
+                   desc="gene / feature collection built on no parent, a chromosome, a chunk or a sequence-less chromosome and then handed to an annotation collection "
+                        "built on any of these (in-place re-parenting): every answer of the member and of the owner after the adoption is the same whether or not "
+                        "strand / chromosome_location / to_dict / child locations / has_sequence / sequences were asked of the member before",
+                   bounds="2 member kinds x 4 own parents x 4 owner parents x 9 earlier questions (closed by the solver), 14 later questions each",
+                   examples=[dict(kind=0, own=0, owner=1, pre=2), dict(kind=1, own=1, owner=3, pre=8)]))
     # H1
     slot_ops = ["blocks", "overlapping", "len", "r2p", "optimize", "isect", "gaps"]
     for strand in (PLUS, MINUS):
